@@ -7,8 +7,9 @@ fn emit_run(out: &mut Out, ct: &CircuitText, shots: usize, seed: u64, repr: &str
 {
     let mut circuit = match build(ct) { Ok(c) => c, Err(_) => return };
     let run = execute_traced(&mut circuit, ct.nq, shots, seed, repr);
-    // per-operation steps
-    let mut pre_snap = initial_snapshot(repr, ct.nq, shots);
+    // per-operation steps ("auto": the representation the library chose)
+    let init_repr = if repr == "auto" { if circuit.is_stabilizer_circuit() { "stabilizer" } else { "vector" } } else { repr };
+    let mut pre_snap = initial_snapshot(init_repr, ct.nq, shots);
     let mut pre_reg: Vec<u64> = vec![0; shots];
     for (j, e) in run.trace.iter().enumerate()
     {
@@ -28,6 +29,20 @@ fn emit_run(out: &mut Out, ct: &CircuitText, shots: usize, seed: u64, repr: &str
         return;
     }
     // per-shot replay lines (B)
+    if let (Some(Ok(())), Some(Snapshot::Stabilizer { nr_bits, counts, tableaus })) = (&run.result, &run.final_snapshot)
+    {
+        let mut shot_range = vec![];
+        for (k, &c) in counts.iter().enumerate() { for _ in 0..c { shot_range.push(k); } }
+        let total: usize = counts.iter().sum();
+        if total != shots { out.case(&format!("shot | {} | counts-do-not-sum {} {}", ct.nq, total, shots), "bad"); return; }
+        let picks: Vec<usize> = if shots <= max_shot_lines { (0..shots).collect() } else { (0..max_shot_lines).map(|_| rng.below(shots as u64) as usize).collect() };
+        for i in picks
+        {
+            let words: Vec<u64> = run.trace.iter().map(|e| e.cstate[i]).collect();
+            let t = tableaus[shot_range[i]].replace('\n', ",");
+            out.case(&format!("shot | {} | {} | {} | T {}", ct.nq, ct.ops.join(" ; "), join(&words), if *nr_bits == 0 { "-".to_string() } else { t }), "ok");
+        }
+    }
     if let (Some(Ok(())), Some(Snapshot::Vector { nr_bits: _, counts, states })) = (&run.result, &run.final_snapshot)
     {
         let mut shot_range = vec![];
@@ -61,6 +76,15 @@ fn main()
         let shots = [1usize, 2, 3, 7, 20, 40][i % 6];
         let seed = rng.next();
         emit_run(&mut out, &ct, shots, seed, "vector", 6, &mut rng);
+    }
+    // Clifford circuits on the stabilizer, automatically chosen and vector representations
+    let cfg_s = GenCfg { max_q: if thorough() { 5 } else { 4 }, clifford: true, ..cfg };
+    for i in 0..ncirc
+    {
+        let ct = gen_circuit(&cfg_s, &mut rng);
+        let shots = [1usize, 2, 3, 7, 20, 40][i % 6];
+        let seed = rng.next();
+        emit_run(&mut out, &ct, shots, seed, ["stabilizer", "auto", "stabilizer", "vector"][i % 4], 6, &mut rng);
     }
     let n = out.finish();
     eprintln!("c02: {} cases", n);
